@@ -40,6 +40,9 @@ func c19Run(raw []byte) (*Line, error) {
 			adj[i][k] = v
 		}
 	}
+	if len(c.Roots) == 0 {
+		return nil, fmt.Errorf("no root: nothing would be observed")
+	}
 	for _, r := range c.Roots {
 		if r < 0 || r >= n {
 			return nil, fmt.Errorf("root out of range")
